@@ -49,4 +49,11 @@ CHECKS = {
   'note': 'Trusted: reference readers; a 200 answer without body carries no result claim; an answer processed at/after the 1 s command lifetime may yield either result.',
   'design_ref': 'DESIGN.md section 3 C17',
  },
+ 'C09': {
+  'engine': 'E-input',
+  'technique': 'complete enumeration of component types, byte values, value lengths, typed numbers, bounded names in every input form and all ordered name pairs on the real Name/Component code; oracle from the documented URI format and the canonical-order definition',
+  'text': 'Every component type 1..65535; every 1- and 2-byte value under four types; value lengths 0..300, 65535, 65536 (literal, escaped, mixed); naming-convention numbers 0..70000 and around every power of two up to 2^64; all names of 0..3 components over a 10-component menu and 0..8 over {a, empty} presented in nine input forms; all 672400 ordered pairs for is_prefix and <,<=,== against list prefix and canonical (type, length, value) order. URI texts are compared with an independent rendering and every conversion is round-tripped.',
+  'note': 'Trusted: URI format as documented by the library (empty component between two slashes). Names longer than 8 components and values longer than 65536 bytes are not enumerated.',
+  'design_ref': 'DESIGN.md section 3 C09',
+ },
 }
